@@ -860,6 +860,9 @@ where
             break;
         }
         if let Some((fid, t)) = locked.pop_front() {
+            // wait_all() may have given up even our own token (the top-level
+            // self-test does); the steps below release and use it.
+            server.ensure_token_or_cheat(t.as_str(), &mut cheat).await?;
             // TODO(soon): check_sane
             let mut lock = ps_ref.borrow().new_lock(fid);
             let mut backoff = Duration::from_millis(100);
